@@ -9,7 +9,7 @@ d="$here/seeded/$id"
 if ! git -C /repo diff --quiet; then echo "/repo has uncommitted changes; refusing"; exit 2; fi
 [ -n "${PROPS:-}" ] && props="$PROPS" || props=$(/venv/bin/python -c "import json,sys; m=json.load(open('$d/meta.json')); print(' '.join([m['property']]+m.get('also',[])))")
 git -C /repo apply "$d/patch.diff" || { echo "patch does not apply"; exit 2; }
-trap 'git -C /repo checkout -- . ; git -C /repo clean -fdq -- atomica >/dev/null 2>&1' EXIT
+trap 'git -C /repo checkout -- . ; git -C /repo clean -fdq -- atomica >/dev/null 2>&1; git -C "$here" checkout -- lean/AtomicaModel/Generated' EXIT   # the translators wrote the mutant's tables: put the committed ones (unchanged tree) back
 rc_all=0
 for p in $props; do
   echo "=== $id : check $p ($tier)"
